@@ -222,11 +222,12 @@ PROPS["C14"] = {
 PROPS["C03"] = {
     # obligations are merged from the per-area modules as they are integrated (grid placement, flex freeze loop,
     # fr / distribution loops, index-checked accessors)
-    "modules": ["TaffyVerif.Props.C14", "TaffyVerif.Props.C03Grid"],
+    "modules": ["TaffyVerif.Props.C14", "TaffyVerif.Props.C03Grid", "TaffyVerif.Props.C03Flex"],
     "theorems": ["C14.index_error_unchanged", "C14.index_error_iff", "C14.no_panic",
                  "C03Grid.search_secondary_terminates", "C03Grid.search_fixed_primary_terminates",
                  "C03Grid.search_both_terminates", "C03Grid.fuel_suffices",
-                 "C03Grid.estimate_covers_definite", "C03Grid.mark_area_never_panics", "C03Grid.matrix_wellformed_invariant"],
+                 "C03Grid.estimate_covers_definite", "C03Grid.mark_area_never_panics", "C03Grid.matrix_wellformed_invariant",
+                 "C03Flex.iteration_freezes_one", "C03Flex.iteration_freezes_all_when_zero", "C03Flex.freeze_loop_terminates"],
     "harness": "C03", "driver": "C03", "monitor": False, "also_debug": True, "debug_cases": 1500,
     "rule": "supervised worker processes (ulimit -v 4 GB, 10 s per-case timeout) lay out generated trees from the property's "
             "bounded domain (all displays, signed margins/insets, grid lines −6…6 incl. 0, spans 0…4, repeat()/auto-fill/auto-fit "
@@ -416,12 +417,125 @@ PROPS["C11"] = {
     "technique": "Lean 4 theorems over ℚ about three stage-by-stage transliterations + differential correspondence on real two/three-node trees",
 }
 
+PROPS["C19"] = {
+    "modules": ["TaffyVerif.Props.C19"],
+    "theorems": [
+        "C19.leaf_root_spec", "C19.leaf_root_spec_no_ratio",
+        "C19.corner_ratio_both_sizes", "C19.corner_ratio_max_height", "C19.corner_ratio_max_height_block",
+        "C19.corner_ratio_content_box", "C19.corner_ratio_floored_width",
+        "C19.measure_called_once", "C19.measure_args", "C19.leaf_calls", "C19.leaf_early_return",
+        "C19.leaf_hidden_mode_panics",
+        "C19.measure_only_childless_boxes", "C19.dispatch_childless", "C19.no_measure_when_hidden", "C19.display_none_root",
+        "C19.size_floor", "C19.min_wins_width", "C19.min_wins_height",
+    ],
+    "harness": "C19", "driver": "C19", "monitor": True,
+    "rule": "three streams. (1) leaf: random single-node styles (display block|flex|grid|none; size/min/max each auto|length|percent "
+            "over a colliding pool; aspect ratio; padding/border length|percent; margins incl. auto and negative; overflow all four x "
+            "scrollbar width; box-sizing; position) x node context (none|fixed|wrapping text) x available space "
+            "(min-/max-content/definite incl. 0) through the real TaffyTree with rounding disabled: unrounded root layout + the recorded "
+            "measure-call arguments, bit-exact. (2) leafraw: taffy::compute_leaf_layout called directly with arbitrary LayoutInput "
+            "(all three run modes incl. the hidden-mode panic, both sizing modes, known dimensions, parent sizes, available spaces). "
+            "(3) dispatch: small trees in which every node (also containers, display:none nodes and their descendants) carries a "
+            "context; per node: was the measure closure invoked with that node id. Fixed witnesses for every excluded corner run first. "
+            "Non-trivial = a box-generating case; distinct = distinct request/answer transcripts. Monitor: Spec.leafBox / "
+            "Spec.leafMeasureCalls evaluated exactly over the rationals against the implementation's answer (all generated inputs are "
+            "small dyadics, so f32 arithmetic is exact); cases outside the theorem's hypotheses are answered `ok excluded:<corner>`.",
+    "trusted_base": [
+        "models of src/compute/leaf.rs, compute_root_layout (src/compute/mod.rs) and the dispatch of TaffyView::compute_child_layout "
+        "(src/tree/taffy_tree.rs) are hand-written (Model/Leaf.lean, Model/Root.lean); tied to the code by bit-exact comparison "
+        "of layouts, outputs and measure-call arguments on generated inputs",
+        "the specification Spec/LeafBox.lean is mine (written from the CSS box model); theorems relate the model at Rat to it",
+        "the user's measure function is a pure function of its two arguments; calc() is not modelled (TaffyTree resolves it to 0)",
+        "the cache is empty (fresh tree): compute_cached_layout runs the dispatch closure (cache behaviour is C02's subject)",
+    ],
+    "assumptions": [
+        "theorems are over exact rationals; f32 rounding is outside them (the correspondence run is bit-exact at Float32)",
+        "leaf_root_spec hypotheses: vertical padding+border >= 0; with an aspect ratio r: r > 0, the specified box is not flatter than "
+        "its ratio (width/r <= height), an undeclared height's width is not determined by the padding+border floor, and on a block root "
+        "max-size has both axes definite or neither. Each excluded corner is proved to differ from the specification on a concrete "
+        "witness (C19.corner_*) and replayed on the implementation (fixed cases).",
+    ],
+    "level_text": "For every single-node style, measure function and available space (over exact rationals): the root's unrounded layout "
+                  "and the list of measure-function calls computed by the line-by-line model of compute_root_layout + dispatch + "
+                  "compute_leaf_layout equal the declarative box-model specification (definite style size incl. percentages and "
+                  "aspect-ratio transfer, else block stretch, else content + padding + border + scrollbar gutter; min/max clamp with min "
+                  "winning; floor at padding+border; location (0,0); edge fields), under hypotheses that are vacuous without an aspect "
+                  "ratio except a non-negative vertical padding+border. The measure function is called exactly once for a box-generating "
+                  "leaf, with no known dimension and the specified content-box space, never for display:none or in hidden mode, and the "
+                  "dispatch reaches the measure closure only for childless box-generating nodes; compute_leaf_layout calls it at most "
+                  "once, not at all on the ComputeSize early-return path, and panics before calling it in hidden run mode. Size >= "
+                  "padding+border and min-wins-over-max hold unconditionally (height: without aspect ratio).",
+    "level_note": "Trusted: Lean kernel; hand-written models (validated by the bit-exact correspondence run) and my specification. "
+                  "Five aspect-ratio corners in which leaf.rs l.149 / the root-vs-leaf max-size transfer depart from the specification "
+                  "are excluded by explicit hypotheses, each with a proved witness. Axioms: propext, Classical.choice, Quot.sound.",
+    "technique": "Lean 4 proof of model = declarative specification over Rat + differential correspondence (layouts and measure-call "
+                 "arguments) with the real TaffyTree and compute_leaf_layout",
+}
+
+PROPS["C07"] = {
+    "modules": ["TaffyVerif.Props.C07", "TaffyVerif.Props.C03Flex"],
+    "theorems": [
+        "C07.iteration_freezes_one", "C07.iteration_freezes_all_when_zero", "C07.freeze_loop_terminates",
+        "C07.freeze_loop_terminates_succ", "C07.marginBoxes_eq_zip", "C07.line_order_no_overlap",
+        "C07.nonfirst_offset_nonneg", "C07.first_offset_of_nonpos_free", "C07.first_offset_nonneg_of_nonneg_free",
+        "C07.flexibility_exhausted", "C07.flexibility_exhausted_total",
+        "C03Flex.iteration_freezes_one", "C03Flex.iteration_freezes_all_when_zero", "C03Flex.freeze_loop_terminates",
+    ],
+    "harness": "C07", "driver": "C07", "monitor": True,
+    "rule": "per case one flex line of 0..6 synthetic items driven through the REAL private functions "
+            "resolve_flexible_lengths -> distribute_remaining_free_space -> calculate_layout_line (cfg(taffy_verif) hooks that "
+            "build real FlexItem/FlexLine/AlgoConstants values), chained as compute_preliminary chains them: 4/5 well-formed items "
+            "(fields related as determine_flex_base_size relates them; dyadic pools for bases, min/max, margins incl. auto, gaps; "
+            "factors from {0, .25, .5, .75, 1, 1.5, 2, 3} or {0,1,2,3,4}; inner size = Σhyp (exact), below, above, half, indefinite), "
+            "1/5 wild items (NaN, ±inf, subnormals, −0.0, negative values, pre-frozen items); all four directions, all nine "
+            "justify-content values + None; plus un-chained drfs/pos inputs, an exhaustive table of compute_alignment_offset / "
+            "apply_alignment_fallback over 10 free-space values × n=1..4 × modes × flags, 7 fixed witnesses, and whole layouts "
+            "through TaffyTree (flex container with 0..6 leaf children with definite flex-basis, min/max, margins incl. auto, gap, "
+            "padding/border, wrap/nowrap/wrap-reverse, display:none and absolute children) whose per-line margin boxes are observed. "
+            "Non-trivial = at least one item (chained/un-chained) resp. at least two in-flow children (whole layout); distinct = "
+            "distinct transcripts.",
+    "trusted_base": [
+        "Model/FlexLine.lean is hand-written from flexbox.rs (resolve_flexible_lengths, distribute_remaining_free_space, "
+        "calculate_layout_line/calculate_flex_item main axis) and common/alignment.rs; tied to the code by bit-exact comparison "
+        "(−0.0 printed as +0.0) of every answer of the real functions on generated item lists",
+        "the model is over the main-axis projection of FlexItem; the hooks do the projection (Size::main, Rect::main_start/…) and "
+        "fill every cross-axis slot with a poison value",
+        "theorems are over exact rationals; f32 rounding is not modelled (the monitor evaluates the conclusions on the f32 answers "
+        "exactly when the f32 answer equals the rational model's, else within 2^-18 relative)",
+        "whole layouts: the tie for lines of real layouts is the monitor only (the model does not compute flex base sizes or line breaking)",
+    ],
+    "assumptions": [
+        "flexibility_exhausted assumes hypothetical_inner_size = flex_basis clamped by the loop's own clamp "
+        "(max(min(b,max),min) floored at 0); determine_flex_base_size guarantees this whenever max_size.main >= padding+border "
+        "(or no max); items whose max is below their padding+border are outside the theorem",
+        "line_order_no_overlap takes the size each child returns as a parameter >= 0 and insets at their default",
+    ],
+    "level_text": "For every item list, inner size and gap the freeze loop returns within n passes with every item frozen "
+                  "(each pass freezes at least one item, all of them when the total violation is zero). For every line with "
+                  "gap, margins >= 0 and default insets, every justify-content value, every sign of the free space and all four "
+                  "directions, the margin boxes produced by distribute_remaining_free_space + calculate_layout_line are pairwise "
+                  "ordered in document order (reversed for *-reverse) and never overlap; only the offset of the first visited item "
+                  "can be negative (under end/flex-end/center with negative free space; the space-* values fall back to start). "
+                  "For a definite inner size and every non-zero factor in the used direction >= 1, on exit either outer target "
+                  "sizes + gaps = inner size exactly, or every item with a positive grow factor (positive scaled shrink factor "
+                  "when shrinking) sits at its max (min) bound. All three are theorems over exact rationals about a model that "
+                  "is tied to the real functions by bit-exact comparison.",
+    "level_note": "Trusted: Lean kernel; hand-written model of the per-line main-axis functions (validated bit-exactly at Float32 "
+                  "against the real private functions through cfg-guarded hooks); f32 rounding not modelled (theorems over Q). "
+                  "Axioms: propext, Classical.choice, Quot.sound.",
+    "technique": "Lean 4 proofs (measure argument for the loop; monotone-function invariant for exhaustion via an abstract loop "
+                 "and a refinement, mirrored for shrinking; induction over the offset accumulation) + differential correspondence "
+                 "through hooks + property monitor on whole layouts",
+}
+
 HOOK_COMMITS = [
     "5207efe",
     "79decb2",
+    "b64c8aa",
+    "77857cc",
 ]
 
 _pending = "check not built yet in this revision of /verif (planned, see DESIGN.md §8)"
 NOT_APPLICABLE = {p: _pending for p in
-                  ["C01", "C04", "C05", "C06", "C07", "C09", "C12", "C16", "C17", "C19"]}
+                  ["C01", "C04", "C05", "C06", "C09", "C12", "C16", "C17"]}
 
